@@ -156,3 +156,22 @@ func VerifPreferences(pod cache.Pod, c cache.Container) VerifPrefs {
 	return VerifPrefs{Full: full, Fraction: fraction, Isolate: isolate, CPUType: ctype.String(),
 		MemReq: req, MemLim: lim, MemType: int(mtype)}
 }
+
+// VerifColdStartArmed tells whether a cold start timer is armed for the container, and
+// stops it: the caller delivers the ColdStartDone event itself instead of waiting.
+func VerifColdStartArmed(b policyapi.Backend, id string) bool {
+	p, ok := b.(*policy)
+	if !ok || p == nil {
+		return false
+	}
+	g, ok := p.allocations.grants[id]
+	if !ok {
+		return false
+	}
+	cg, ok := g.(*grant)
+	if !ok || cg.coldStartTimer == nil {
+		return false
+	}
+	cg.coldStartTimer.Stop()
+	return true
+}
